@@ -457,6 +457,13 @@ OMIT_KINDS = ("ctor", "deser", "from_object", "from_other", "cast", "from_mappin
 OMIT_FOLLOW = (None, ["clone", []], ["deepcopy"], None, ["pickle"], ["copy"], ["clone", []])
 
 
+def class_src(c):
+    """structgen.class_src, with the options of an argument-less declaration joined correctly
+    (`Boolean(, default=..)` is what the shared renderer writes; other checks rely on its output as it is)."""
+    from harness import structgen as SG0
+    return SG0.class_src(c).replace("(, ", "(")
+
+
 def _definable(src, fact=None):
     """Does typedpy accept this class statement?  (generator guidance only)"""
     ns = {}
@@ -538,10 +545,10 @@ def defaults_lattice(tier, seed):
             if quick and wname != "id" and numeric and (li + wi) % 3:
                 continue
             decl = mk_decl(g)
-            probe = _definable(SG.class_src({"name": "P", "fields": [{"name": "f", "field": decl}], "required": ["f"]}))
+            probe = _definable(class_src({"name": "P", "fields": [{"name": "f", "field": decl}], "required": ["f"]}))
             if probe is None:
                 continue
-            y = next((x for x in xs if _accepts(_definable(SG.class_src(
+            y = next((x for x in xs if _accepts(_definable(class_src(
                 {"name": "P", "fields": [{"name": "f", "field": g}], "required": ["f"]})) or {}, "P", x)), None) \
                 if wname != "id" else None
             cand = xs if wname == "id" else inner(g, 8 if quick else 14)
@@ -557,7 +564,7 @@ def defaults_lattice(tier, seed):
             dsub = {"name": "%sG%d" % (pre, wi), "base": kcls["name"],
                     "fields": [{"name": "f", "field": decl, "default": good, "factory": key}], "required": ["k"],
                     "additional": False}
-            if _definable(SG.class_src(dfac), {key: G.unreify(good)}) is None:
+            if _definable(class_src(dfac), {key: G.unreify(good)}) is None:
                 continue                # this declaration takes no `default=` (the multi-field wrappers)
             asts += [dfac, dsub]
             for vi, v in enumerate(vals):
@@ -578,7 +585,7 @@ def defaults_lattice(tier, seed):
                        "fields": [{"name": "k", "field": STR}, {"name": "f", "field": decl, "default": d}],
                        "required": ["k"], "additional": False}
                 try:
-                    src = SG.class_src(cst)
+                    src = class_src(cst)
                 except Exception:  # noqa
                     continue
                 if _definable(src) is None:
